@@ -132,6 +132,11 @@ theorem limits_agree : ∀ x ∈ limitChecks, x.2 = true := by decide +kernel
 
 /-! ## C. Map keys, byte for byte -/
 
+/-- The byte-level key images below are laid out as the regenerated C and Go layouts say (member
+positions of `tuples_key` / `bpfTuplesKey`, `lpm_key` / `_bpfLpmKey`, the `match_set` value union, key
+sizes of the scalar-keyed maps). -/
+theorem key_models_follow_layout : keyModelsFollowLayout = true := by decide +kernel
+
 /-- **Headline (flow tuples).** For every flow (IPv4 or IPv6, any addresses, ports, protocol), on
 either byte order, and whether the control plane holds an IPv4 peer as an `Is4` address or as the
 IPv4-mapped IPv6 address: the memory image of `bpfTuplesKeyFromAddrPorts(src, dst, proto)` equals the
